@@ -2,13 +2,17 @@
 (M) ScopeClose.tla: a parent and a shared or isolated child, Close as the code's
     steps (guard + before-close, wait for the WaitGroup, triple, after-close,
     sign-off, return), a worker finishing tasks, a failer (error / kill on the
-    child, error / stop on the parent), the isolated context's watcher, an optional
-    second Close; 20 configurations; invariants EachOnce, Ordered, CommitXorRollback,
+    child, error / stop on the parent), a task that reports an error on its scope before
+    it is handed to DoneTask -- possibly while Close is already waiting for it --, the
+    isolated context's watcher, an optional second Close; 24 configurations; invariants EachOnce, Ordered, CommitXorRollback,
     FullProtocol, RollbackIffError, ParentWaitsForChild, WaitsForTasks,
-    ReturnsErrorIffHeld, SharedFailsParent, IsolatedFailsAlone, DoubleCloseRefused and,
-    under fairness, Terminates and ParentStopReachesIsolated.
+    ReturnsErrorIffHeld, SharedFailsParent, IsolatedFailsAlone, DoubleCloseRefused,
+    NoTaskPanic, TaskErrorRollsBack and, under fairness, Terminates and
+    ParentStopReachesIsolated; the ClosedGuard variant (scope closed as soon as Close
+    begins: fixed defect c61b452) must violate NoTaskPanic.
 (T) random real scope trees (1-4 scopes, shared/isolated, up to depth 3) are driven
-    from concurrent goroutines (tasks, errors, kills, stops, failing listeners, Close
+    from concurrent goroutines (tasks -- some reporting an error, kill or stop on their own
+    scope before DoneTask, at any time --, errors, kills, stops, failing listeners, Close
     of every scope, second Close); what listeners and callers observe is validated by
     Trace_ScopeClose.tla (property layer)."""
 import json
@@ -16,19 +20,27 @@ import vlib
 
 MANIFEST = dict(
     technique='TLA+ model of the close protocol (steps of Close, WaitGroup, error contexts, isolated watcher) checked by TLC incl. liveness; event logs of real concurrent scope trees validated by a TLA+ trace spec',
-    text='The model is exhaustive for parent+child with every failure kind and a second Close (20 configurations, safety and liveness). Hundreds of random real scope trees driven by concurrent goroutines are checked event by event: order and uniqueness of the 8 protocol events per scope, the triple only after all tasks and all children, commit/rollback against the errors certainly/possibly held, return values, loud refusal of a second Close, error propagation shared vs isolated, done-ness reaching isolated children.',
-    note='Unspecified corner kept out of the driver: AppendError/Kill/Stop on a scope whose own Close has already begun. Free-running schedules (GOMAXPROCS 1/2/4/N, random delays); no gate hooks are needed because listeners are the observation points.')
+    text='The model is exhaustive for parent+child with every failure kind and a second Close (24 configurations, safety and liveness). Hundreds of random real scope trees driven by concurrent goroutines are checked event by event: order and uniqueness of the 8 protocol events per scope, the triple only after all tasks and all children, commit/rollback against the errors certainly/possibly held, return values, loud refusal of a second Close, error propagation shared vs isolated, done-ness reaching isolated children.',
+    note='Unspecified corner kept out of the driver: AppendError/Kill/Stop on a scope whose own Close has already begun by a goroutine that holds no task of it (a task may report until it is handed to DoneTask). Free-running schedules (GOMAXPROCS 1/2/4/N, random delays); no gate hooks are needed because listeners are the observation points.')
 
 
 def run(ctx):
     q = ctx.quick
-    inv = 'INVARIANTS EachOnce Ordered CommitXorRollback FullProtocol RollbackIffError ParentWaitsForChild WaitsForTasks ReturnsErrorIffHeld SharedFailsParent IsolatedFailsAlone DoubleCloseRefused\nPROPERTIES Terminates ParentStopReachesIsolated\n'
+    inv = 'INVARIANTS EachOnce Ordered CommitXorRollback FullProtocol RollbackIffError ParentWaitsForChild WaitsForTasks ReturnsErrorIffHeld SharedFailsParent IsolatedFailsAlone DoubleCloseRefused NoTaskPanic TaskErrorRollsBack\nPROPERTIES Terminates ParentStopReachesIsolated\n'
+    tmpl = 'SPECIFICATION Spec\nCONSTANTS\n  Kind = "%s"\n  FailWhat = "%s"\n  DoubleClose = %s\n  ClosedGuard = %s\n%s'
     for kind in ('shared', 'isolated'):
-        for fw in ('none', 'errC', 'errP', 'stopP', 'killC'):
+        for fw in ('none', 'errC', 'errP', 'stopP', 'killC', 'taskErrC', 'taskErrP'):
             for dc in ('FALSE', 'TRUE'):
-                cfg = 'SPECIFICATION Spec\nCONSTANTS\n  Kind = "%s"\n  FailWhat = "%s"\n  DoubleClose = %s\n%s' % (kind, fw, dc, inv)
-                ctx.tlc_must_pass('scope', 'ScopeClose', 'mc.cfg', workers=2, timeout=300, files={'mc.cfg': cfg},
+                if dc == 'TRUE' and fw.startswith('task'):
+                    continue
+                ctx.tlc_must_pass('scope', 'ScopeClose', 'mc.cfg', workers=2, timeout=300, files={'mc.cfg': tmpl % (kind, fw, dc, 'FALSE', inv)},
                                   name='ScopeClose %s %s double=%s' % (kind, fw, dc))
+    # regression variant: a scope that counts as closed as soon as Close begins panics on a task's report
+    rg = ctx.tlc('scope', 'ScopeClose', 'mc.cfg', workers=2, timeout=300, files={'mc.cfg': tmpl % ('shared', 'taskErrP', 'FALSE', 'TRUE', inv)},
+                 name='ClosedGuard variant (must violate NoTaskPanic)')
+    ctx.cov['states'] -= rg['distinct']; ctx.cov['transitions'] -= rg['generated']
+    if 'NoTaskPanic' not in rg['violated']:
+        raise vlib.Infra('spec self-test failed: the ClosedGuard variant does not violate NoTaskPanic')
     ctx.cov['exhaustive'] = True
     tf = ctx.tmp('c11.ndjson')
     g = ctx.vh(['closetrace', '--out', tf, '--n', '400' if q else '8000', '--seed', str(ctx.seed)])
@@ -61,6 +73,11 @@ def run(ctx):
         def flip(lines):
             for i, l in enumerate(lines):
                 if '"ev":"close.end"' in l and '"ret":"nil"' in l and i > 10:
+                    # only in a scenario in which no error can be held at all
+                    r0 = max(j for j in range(i) if '"ev":"reset"' in lines[j])
+                    r1 = min([j for j in range(i, len(lines)) if '"ev":"reset"' in lines[j]] + [len(lines)])
+                    if any('"ev":"fail.start"' in x or '"fails":true' in x for x in lines[r0:r1]):
+                        continue
                     # claim a rollback triple for a scope that committed
                     k = i
                     changed = False
